@@ -957,7 +957,14 @@ def wa_forward(ctx):
     repo = ctx.repo
     n = 0
     for f in repo.all_functions():
-        if 'with_altitude' not in f.params + f.kwonly:
+        own = 'with_altitude' in f.params + f.kwonly
+        # a method of a class whose constructor takes the mode (and keeps it in self.with_altitude)
+        # is under the same obligation: it passes the stored mode on (hand-made probe, sixth
+        # session: the kernel called with a literal True from Integrator._integrate)
+        ctor = f.cls.methods.get('__init__') if f.cls is not None else None
+        stored = ctor is not None and 'with_altitude' in ctor.params + ctor.kwonly and \
+            f.name != '__init__' and not f.is_static
+        if not (own or stored):
             continue
         for call in ast.walk(f.node):
             if not isinstance(call, ast.Call):
